@@ -816,6 +816,14 @@ func scriptIntTaint(fn *ssa.Function) map[ssa.Value]string {
 				}
 			}
 		}
+		// numerals supplied by the script and parsed by strconv
+		if fnPkgPath(cal) == "strconv" && (cal.Name() == "ParseInt" || cal.Name() == "ParseUint") {
+			for _, r := range *call.Referrers() {
+				if ex, ok := r.(*ssa.Extract); ok && ex.Index == 0 {
+					taint[ex] = "result of strconv." + cal.Name()
+				}
+			}
+		}
 		switch cal.Name() {
 		case "AsInt32", "Int64", "Uint64":
 			if strings.HasSuffix(fnPkgPath(cal), "/starlark") {
